@@ -350,7 +350,7 @@ var plans = map[string]*propertyPlan{
 		Explain: "The decoder is proved panic-free for an unconstrained byte slice (every type assertion, slice expression, nil dereference and interface call on its paths), relative to trusted protobuf contracts; it is proved to create the message of the method's input type for requests and output type for responses, to look the method up exactly once under the decoded name, and to reject unknown message kinds; abstract-bytes round trip."},
 	"C14": {ID: "C14", Level: "proof", Pkgs: rootAndDev,
 		Explain: "Configuration constructors verified against quantified contracts: every result is non-nil, strictly sorted by id (hence duplicate-free) and non-empty; operands (slices, id lists, address lists) are provably unmodified, with the precise in-place/reallocating append model; And removes duplicates through its id set, Except/WithoutNodes keep exactly the ids not removed (witness arrays for both directions), WithNodeIDs resolves exactly registered ids to the pooled objects or fails, WithNodeList/WithNodeMap yield for every given address a node carrying its resolved address and reject id/address mismatches; AddNode/Node keep the pool's lookup consistent (whole-map frame). Sorting relies on sort.Sort's trusted contract instantiated through the proved Len/Less/Swap (C19)."},
-	"C15": {ID: "C15", Level: "other", Pkgs: rootPkg, Extra: combine(modeScan("C15"), sweepModes("C15")),
+	"C15": {ID: "C15", Level: "other", Pkgs: rootPkg, SweepsAll: true, Extra: combine(modeScan("C15"), sweepModes("C15")),
 		Explain: "Ownership discipline: every mutable field of channel, RawManager, Correctable, Async (and the atomic flags) has a declared mode - guarded_by(lock), atomic, immutable after publication, or single writer - and every access in every function of the package is checked against it with the lockset tracked through the symbolic execution (objects not yet published are exempt). Objects that are not safe for concurrent use (the per-channel random source) are confined to named functions; a guarded slice or map must not be returned, re-sliced or not. If every access respects its mode no two conflicting accesses are unordered. Silent on gRPC/protobuf internals."},
 	"C16": {ID: "C16", Level: "other", Pkgs: []string{modPath + "/cmd/protoc-gen-gorums/gengorums"}, Gen: true, GenToolsOnly: true,
 		Extra: func(s *Session, tier string) []*FuncResult {
